@@ -578,3 +578,38 @@ Proof.
   destruct (lookup nm (as_keywords (map fst fields) pos ++ kw)) as [[v|]|]; reflexivity.
 Qed.
 End M.
+
+(* ---- == as a relation ---- *)
+Section E.
+Variable V : Type.
+Variable veqb : V -> V -> bool.
+
+(* == on instances of structure classes is an equivalence relation whenever the comparison of field values is *)
+Theorem eq_reflexive fields (a : inst V) : (forall x, veqb x x = true) -> has_fields V a fields ->
+  run_eq V veqb (generate_eq V fields) a a = Ok true.
+Proof. intros R Ha. apply (eq_true_iff V veqb fields a a Ha Ha). split; [reflexivity|intros; apply R]. Qed.
+
+Theorem eq_symmetric fields (a b : inst V) : (forall x y, veqb x y = true -> veqb y x = true) ->
+  has_fields V a fields -> has_fields V b fields ->
+  run_eq V veqb (generate_eq V fields) a b = Ok true -> run_eq V veqb (generate_eq V fields) b a = Ok true.
+Proof.
+  intros S Ha Hb H. apply (eq_true_iff V veqb fields a b Ha Hb) in H as [C F].
+  apply (eq_true_iff V veqb fields b a Hb Ha). split; [now symmetry|intros d f Hf; apply S, F, Hf].
+Qed.
+
+Theorem eq_transitive fields (a b c : inst V) : (forall x y z, veqb x y = true -> veqb y z = true -> veqb x z = true) ->
+  has_fields V a fields -> has_fields V b fields -> has_fields V c fields ->
+  run_eq V veqb (generate_eq V fields) a b = Ok true -> run_eq V veqb (generate_eq V fields) b c = Ok true ->
+  run_eq V veqb (generate_eq V fields) a c = Ok true.
+Proof.
+  intros T Ha Hb Hc H1 H2. apply (eq_true_iff V veqb fields a b Ha Hb) in H1 as [C1 F1]. apply (eq_true_iff V veqb fields b c Hb Hc) in H2 as [C2 F2].
+  apply (eq_true_iff V veqb fields a c Ha Hc). split; [congruence|intros d f Hf; exact (T _ _ _ (F1 d f Hf) (F2 d f Hf))].
+Qed.
+
+(* one field changed to an unequal value makes the instances unequal *)
+Theorem changing_one_field_makes_unequal fields (a b : inst V) f : has_fields V a fields -> has_fields V b fields -> In f fields ->
+  (exists d, veqb (field_of V a f d) (field_of V b f d) = false) -> run_eq V veqb (generate_eq V fields) a b <> Ok true.
+Proof.
+  intros Ha Hb Hf [d Hd] H. apply (eq_true_iff V veqb fields a b Ha Hb) in H as [_ F]. rewrite (F d f Hf) in Hd. discriminate.
+Qed.
+End E.
